@@ -148,6 +148,14 @@ func checkC06(sc *Scenario, res *RunResult, t *Truth) []Violation {
 				if p.WorkingDir != "" && run.Dir != p.WorkingDir && !strings.HasSuffix(run.Dir, "/"+p.WorkingDir) {
 					add("stop-command-directory", "", fmt.Sprintf("the shutdown command of %s ran in %q; the process's working directory is %s", p.Name, run.Dir, p.WorkingDir), run.ExecSeq)
 				}
+				limit := 10 * time.Second // documented default for a shutdown command
+				if p.StopTimeout != nil {
+					limit = time.Duration(*p.StopTimeout) * time.Second
+				}
+				if (run.ExitSeq < 0 && t.EndT-run.ExecT > limit+time.Second) || (run.ExitSeq >= 0 && run.ExitT-run.ExecT > limit+time.Second) {
+					add("stop-command-not-abandoned", "", fmt.Sprintf("the shutdown command of %s was started at t=%v and was still running %v later; its time-out is %v", p.Name, run.ExecT, limit+time.Second, limit), run.ExecSeq)
+					continue
+				}
 				okRun := run.ExitSeq >= 0 && run.Code == 0 && run.BySig == 0
 				// the SIGKILL that follows a failed command goes to the group of the live command
 				for _, L := range t.ByRep[p.Name] {
@@ -383,7 +391,11 @@ func genC06(r *R, sc *Scenario, tier string) {
 	// requests: stop / restart of single processes at seeded instants, then the project shutdown
 	var ops []Op
 	for k := r.Intn(3); k > 0; k-- {
-		ops = append(ops, Op{AtMs: 500 + whenMs(r, 6000), Op: Pick(r, "stop", "stop", "restart"), Arg: spec.Procs[r.Intn(n)].Name})
+		at := 500 + whenMs(r, 6000)
+		if r.P(300) {
+			at = Pick(r, 0, 0, 1, 5) // while the commands are being launched
+		}
+		ops = append(ops, Op{AtMs: at, Op: Pick(r, "stop", "stop", "restart"), Arg: spec.Procs[r.Intn(n)].Name})
 	}
 	sortOps(ops)
 	if len(ops) > 0 {
@@ -395,6 +407,9 @@ func genC06(r *R, sc *Scenario, tier string) {
 		// the project is shut down by SIGTERM / SIGINT / SIGHUP sent to the binary
 		sc.ViaCmd = true
 		sigAt = 1000 + whenMs(r, 8000)
+		if r.P(250) {
+			sigAt = Pick(r, 0, 0, 1, 10) // while the commands are being launched
+		}
 		sc.Clients = append(sc.Clients, Client{Name: "os", Ops: []Op{{AtMs: sigAt, Op: "signal", N: Pick(r, 15, 2, 1)}}})
 	}
 	sc.Strategy = genStrategy(r)
@@ -404,7 +419,7 @@ func genC06(r *R, sc *Scenario, tier string) {
 	sc.RunForMs = 8000 + whenMs(r, 4000)
 	sc.QuietMs = 15000
 	sc.Arm = "stop"
-	if sigAt > 0 {
+	if sc.ViaCmd {
 		sc.RunForMs = sigAt + 60000
 		sc.Arm = "binsignal"
 	}
